@@ -293,6 +293,41 @@ def check_scribble(label, thunk, other):
     return []
 
 
+def check_design_through_sweep(gen_name, n, response):
+    """The design as a user runs it: handed to SweepAlgorithm. The recorded runs are the design's runs, whatever the response
+    values are (a diverged solver reports inf or nan for some corners)."""
+    from artap.algorithm_sweep import SweepAlgorithm
+    from artap.operators import FullFactorGenerator, PlackettBurmanGenerator, BoxBehnkenGenerator
+    from .c_support import make_problem, reset_ids
+    reset_ids()
+    bounds = [list(BOXES[i % len(BOXES)]) for i in range(n)]
+
+    def f(v):
+        k = sum(1 for x, b in zip(v, bounds) if x == b[1])           # number of factors at their upper bound
+        if response == "nonfinite" and k % 3 == 0:
+            return [float("inf") if k else float("nan")]
+        if response == "zero":
+            return [0.0]
+        return [float(k) + 0.5]
+    problem = make_problem(n_params=n, bounds=bounds, f=f, param_names=[pname(i) for i in range(n)])
+    gen = {"ff": FullFactorGenerator, "pb": PlackettBurmanGenerator, "bb": BoxBehnkenGenerator}[gen_name](problem.parameters)
+    if gen_name == "ff":
+        gen.init(True)
+    desc = "%s design for %d factors run by SweepAlgorithm, response=%s" % (gen_name, n, response)
+    try:
+        exp = Counter(tuple(r) for r in gen.generate())
+        alg = SweepAlgorithm(problem, generator=gen)
+        alg.options['verbose_level'] = 0
+        alg.run()
+    except Exception as e:
+        return [("C13:sweep:exception:%s" % type(e).__name__, "%s raised %r" % (desc, e))]
+    got = Counter(tuple(i.vector) for i in problem.individuals)
+    if got != exp:
+        return [("C13:sweep:recorded-runs-are-not-the-design", "%s: %d of the %d recorded runs are not runs of the design (%d design runs missing)" % (
+            desc, sum((got - exp).values()), sum(got.values()), sum((exp - got).values())))]
+    return []
+
+
 def _shard(shard, col: Collector):
     kind = shard[0]
 
@@ -328,6 +363,12 @@ def _shard(shard, col: Collector):
             for shift in range(len(BOXES)):
                 rec("pb", {"n": n, "shift": shift}, check_pb(n, shift), n > 1)
         col.sample({"kind": "plackett-burman", "factors": 11, "runs": 12}, 1)
+    elif kind == "sweep":
+        for gen_name, ns in (("ff", (2, 3)), ("pb", (3, 7, 11)), ("bb", (3, 4))):
+            for n in ns:
+                for response in ("plain", "nonfinite", "zero"):
+                    rec("sweep", {"gen": gen_name, "n": n, "response": response}, check_design_through_sweep(gen_name, n, response), True)
+        col.sample({"kind": "designs run through SweepAlgorithm", "responses": ["plain", "nonfinite", "zero"]}, 1)
     elif kind == "scribble":
         calls = doe_calls()
         for i, (label, thunk) in enumerate(calls):
@@ -371,6 +412,8 @@ def replay(sub, case):
         return check_pb(case["n"], case["shift"])
     if sub == "bb":
         return check_bb(case["n"], case["shift"])
+    if sub == "sweep":
+        return check_design_through_sweep(case["gen"], case["n"], case["response"])
     if sub == "ffprec":
         return check_fullfact_precision(case["k"], case["center"])
     if sub == "fflmixed":
@@ -390,7 +433,7 @@ def replay(sub, case):
 
 
 def run(tier, seed):
-    shards = [("ff",), ("pb",), ("scribble",)] + [("bb", n) for n in (3, 4, 5, 6, 7, 8) + ((9, 10) if tier == "thorough" else ())]
+    shards = [("ff",), ("pb",), ("scribble",), ("sweep",)] + [("bb", n) for n in (3, 4, 5, 6, 7, 8) + ((9, 10) if tier == "thorough" else ())]
     for nf in (2, 3, 4) + ((5,) if tier == "thorough" else ()):
         for first in (2, 3, 4, 5):
             shards.append(("gsd", nf, first))
